@@ -698,6 +698,22 @@ fn check_dwarf_level(c: &ListCase, b: &BuiltLists, cx: &mut Ctx) -> R {
             let attr = entry.attr_value(gimli::DW_AT_ranges).ok_or_else(|| Failure { sig: "c08/dwarf/attr".into(), detail: String::new() })?;
             let off = dwarf.attr_ranges_offset(&unit_r, attr.clone()).map_err(|e| Failure { sig: "c08/dwarf/attr_ranges_offset".into(), detail: format!("{e:?} for {:?}", attr) })?;
             ensure_eq!(off.map(|o| o.0), Some(b.rng_offsets[k]), "c08/dwarf/attr_ranges_offset-value", "child {} attr {}", k, canon_av(&attr));
+            if let Some(off) = off {
+                let direct = dwarf.ranges.raw_ranges(off, cfg.encoding());
+                let via = dwarf.raw_ranges(&unit_r, off);
+                match (direct, via) {
+                    (Ok(mut d), Ok(mut v)) => {
+                        for n in 0..64 {
+                            let (x, y) = (d.next(), v.next());
+                            ensure_eq!(format!("{:?}", y), format!("{:?}", x), "c08/dwarf/raw_ranges", "child {} raw entry #{}", k, n);
+                            if !matches!(x, Ok(Some(_))) {
+                                break;
+                            }
+                        }
+                    }
+                    (d, v) => ensure_eq!(v.is_ok(), d.is_ok(), "c08/dwarf/raw_ranges-open", "child {}", k),
+                }
+            }
             let mut it = dwarf.die_ranges(&unit_r, entry).map_err(|e| Failure { sig: "c08/dwarf/die_ranges".into(), detail: format!("{e:?}") })?;
             let (got, err) = collect_ranges(&mut it);
             let (wl, werr) = match &want {
@@ -711,6 +727,32 @@ fn check_dwarf_level(c: &ListCase, b: &BuiltLists, cx: &mut Ctx) -> R {
             let li = k - first_loc_child;
             let want = resolve(&c.loc[li], unit_base, a, addrs);
             let attr = entry.attr_value(gimli::DW_AT_location).ok_or_else(|| Failure { sig: "c08/dwarf/attr".into(), detail: String::new() })?;
+            // raw iteration through the Dwarf-level entry point = raw iteration of the list section in the format the
+            // unit's version and file type call for (which check_lists has compared with the encoded entries)
+            {
+                let off = match dwarf.attr_locations_offset(&unit_r, attr.clone()) {
+                    Ok(Some(o)) => o,
+                    other => fail!("c08/dwarf/attr_locations_offset", "attr {}: {:?}", canon_av(&attr), other),
+                };
+                ensure_eq!(off.0, b.loc_offsets[li], "c08/dwarf/attr_locations_offset-value", "child {}", k);
+                let enc = cfg.encoding();
+                let direct = if c.fmt_loc == ListFmt::GnuDwoLoc { dwarf.locations.raw_locations_dwo(off, enc) } else { dwarf.locations.raw_locations(off, enc) };
+                let via = dwarf.raw_locations(&unit_r, off);
+                match (direct, via) {
+                    (Ok(mut d), Ok(mut v)) => {
+                        for n in 0..64 {
+                            let (x, y) = (d.next(), v.next());
+                            let (sx, sy) = (format!("{:?}", x), format!("{:?}", y));
+                            // error values carry reader positions, which are the same buffer here
+                            ensure_eq!(sy, sx, "c08/dwarf/raw_locations", "child {} raw entry #{}", k, n);
+                            if !matches!(x, Ok(Some(_))) {
+                                break;
+                            }
+                        }
+                    }
+                    (d, v) => ensure_eq!(v.is_ok(), d.is_ok(), "c08/dwarf/raw_locations-open", "child {}", k),
+                }
+            }
             let mut it = match dwarf.attr_locations(&unit_r, attr.clone()) {
                 Ok(Some(it)) => it,
                 other => fail!("c08/dwarf/attr_locations", "attr {}: {:?}", canon_av(&attr), other.map(|o| o.is_some())),
